@@ -25,56 +25,44 @@ Print Assumptions c12_modelled_text_unchanged.
 Local Open Scope Z_scope.
 
 (* ------------------------------------------------------------------ range_of_ranges / LIMIT-OFFSET *)
-(* Full statement (FALSE on the unchanged tree, finding F7):
-     forall rs, Forall valid rs -> Forall in_i64_range rs -> range_of_ranges (map lit rs) <> Panic
-   i.e. the takes the resolver accepts (integer literals >= 1 that fit i64) never make SQL generation panic. *)
-Theorem c12_range_of_ranges_total_refuted :
-  exists rs, Forall valid rs /\ Forall in_i64_range rs /\ range_of_ranges (map lit rs) = Panic.
-Proof.
-  exists [IRange (Some 9223372036854775807) None; IRange (Some 2) None].
-  split; [|split].
-  - repeat constructor; cbn; try exact I; discriminate.
-  - repeat constructor; cbn; try exact I; discriminate.
-  - vm_compute. reflexivity.
-Qed.
-Print Assumptions c12_range_of_ranges_total_refuted.
-
-(* a single `take 9223372036854775807` is enough: unwrap_or(1) + b overflows before the - 1 *)
-Theorem c12_single_take_refuted :
-  valid (IRange None (Some i64_max)) /\ in_i64_range (IRange None (Some i64_max)) /\
-  range_of_ranges (map lit [IRange None (Some i64_max)]) = Panic.
-Proof. split; [|split]; [split; cbn; [exact I | discriminate] | split; cbn; [exact I | split; discriminate] | vm_compute; reflexivity]. Qed.
-Print Assumptions c12_single_take_refuted.
-
-(* the real condition: n ranges whose literals are bounded by B in absolute value cannot overflow when n*(B+1) fits *)
-Theorem c12_range_of_ranges_total_partial : forall rs B,
-  0 <= B -> Forall (bounded B) rs -> Z.of_nat (length rs) * (B + 1) <= i64_max ->
-  range_of_ranges rs <> Panic.
+(* Full strength.  Until commit 18f8c11 ("fix: report an error instead of overflowing when composing take ranges")
+   these were false (finding F7: `take 9223372036854775807.. | take 2..` and a single `take 9223372036854775807`
+   overflowed i64 -- the old theorems c12_range_of_ranges_total_refuted / _partial).  The model now mirrors the
+   checked arithmetic (checked_add / checked_sub, overflow -> Err("take range is too large")). *)
+Theorem c12_range_of_ranges_total : forall rs, range_of_ranges rs <> Panic.
 Proof. exact range_of_ranges_total_lemma. Qed.
-Print Assumptions c12_range_of_ranges_total_partial.
+Print Assumptions c12_range_of_ranges_total.
 
 (* ... including the OFFSET / LIMIT subtraction of translate_select_pipeline *)
-Theorem c12_take_sql_total_partial : forall rs B,
-  0 <= B -> Forall (bounded B) rs -> 2 * (Z.of_nat (length rs) * (B + 1)) + 1 <= i64_max ->
-  take_sql rs <> Panic.
+Theorem c12_take_sql_total : forall rs, take_sql rs <> Panic.
 Proof. exact take_sql_total_lemma. Qed.
-Print Assumptions c12_take_sql_total_partial.
+Print Assumptions c12_take_sql_total.
+
+(* the error is not spurious: n literal ranges bounded by B in absolute value are accepted whenever 2n(B+1)+1 fits i64 *)
+Theorem c12_take_sql_accepts : forall rs B,
+  0 <= B -> Forall (bounded_i B) rs -> 2 * (Z.of_nat (length rs) * (B + 1)) + 1 <= i64_max ->
+  exists ol, take_sql (map lit rs) = Ret ol.
+Proof. exact take_sql_accepts_lemma. Qed.
+Print Assumptions c12_take_sql_accepts.
 
 (* instance: two takes with every bound below 2^60 *)
 Theorem c12_two_takes_below_2p60 : forall r1 r2,
-  bounded 1152921504606846975 r1 -> bounded 1152921504606846975 r2 -> take_sql [r1; r2] <> Panic.
+  bounded_i 1152921504606846975 r1 -> bounded_i 1152921504606846975 r2 -> exists ol, take_sql (map lit [r1; r2]) = Ret ol.
 Proof.
-  intros r1 r2 H1 H2. apply (take_sql_total_lemma [r1; r2] 1152921504606846975).
+  intros r1 r2 H1 H2. apply (take_sql_accepts_lemma [r1; r2] 1152921504606846975).
   - apply Z.leb_le. vm_compute. reflexivity.
   - apply Forall_cons; [assumption|]. apply Forall_cons; [assumption|]. apply Forall_nil.
   - apply Z.leb_le. vm_compute. reflexivity.
 Qed.
 Print Assumptions c12_two_takes_below_2p60.
 
-(* the OFFSET subtraction alone, for an RQ handed over as JSON (start = i64::MIN) *)
-Theorem c12_limit_offset_refuted : limit_offset (IRange (Some i64_min) None) = Panic.
-Proof. vm_compute. reflexivity. Qed.
-Print Assumptions c12_limit_offset_refuted.
+(* the former F7 witnesses are reported as errors *)
+Theorem c12_overflow_is_an_error :
+  take_sql (map lit [IRange (Some 9223372036854775807) None; IRange (Some 2) None]) = Fail /\
+  take_sql (map lit [IRange None (Some i64_max)]) = Fail /\
+  limit_offset (IRange (Some i64_min) None) = Fail.
+Proof. repeat split; vm_compute; reflexivity. Qed.
+Print Assumptions c12_overflow_is_an_error.
 
 (* functional correctness: whenever the arithmetic returns, OFFSET/LIMIT select exactly the rows the takes select
    one after the other (so an off-by-one in range_of_ranges or in the offset/limit lines falsifies the model the
@@ -145,5 +133,5 @@ Example c12_ex_collapse : take_sql (map lit [IRange (Some 5) (Some 6); IRange (S
 Proof. vm_compute. reflexivity. Qed.
 Example c12_ex_not_literal : take_sql [ERange (Some (BInt 1)) (Some BOther)] = Fail.
 Proof. vm_compute. reflexivity. Qed.
-Example c12_ex_bounded : bounded 10 (lit (IRange (Some 3) (Some 7))).
+Example c12_ex_bounded : bounded_i 10 (IRange (Some 3) (Some 7)).
 Proof. split; cbn; split; discriminate. Qed.
